@@ -921,7 +921,15 @@ def count_rounds_up(repo: Repo) -> RuleRun:
         for st in walk_shallow(fn.node):
             if not (isinstance(st, ast.Return) and st.value is not None):
                 continue
-            kind, at = classify(st.value, defs)
+            value = st.value
+            if isinstance(value, ast.Name):
+                # 'tmp = <expr>; return tmp': the assignment just before the return, in the same block
+                body = next((b for n_ in ast.walk(fn.node) for b in (getattr(n_, "body", None), getattr(n_, "orelse", None)) if isinstance(b, list) and st in b), None)
+                if body is not None and body.index(st) > 0:
+                    prev = body[body.index(st) - 1]
+                    if isinstance(prev, ast.Assign) and len(prev.targets) == 1 and isinstance(prev.targets[0], ast.Name) and prev.targets[0].id == value.id:
+                        value = prev.value
+            kind, at = classify(value, defs)
             if kind == "unknown":
                 raise AnalysisError(f"{fn.name}: the result '{ast.unparse(st.value)[:60]}' is not a recognised rounding of a cell number (int(x) + 1, ceil(x), int(x), floor, round)")
             n += 1
